@@ -1,11 +1,11 @@
 import PxProofs.UpdateThms
 /-!
-# `update_body` on a chunked message (C15, finding D23)
+# `update_body` on a chunked message (C15; D23 fixed by 4312341)
 
-`update_body` stores the chunk-encoded stream in `self.body` and leaves `_is_chunked_encoded` set,
-so `build()` encodes it a second time.  `update_body_req_chunked_partial` proves what the code
-does: the rebuilt message is well-formed and complete, but its decoded body is the *chunk
-encoding* of the new body.
+`update_body` deletes `content-length`, stores the DECODED (possibly compressed) body and leaves
+`_is_chunked_encoded` set; `build()` / `build_response()` chunk-encode it once.
+`update_body_req_chunked` / `update_body_resp_chunked`: the rebuilt message is complete, chunked,
+has the expected header map and decodes to the new body.
 -/
 namespace Px.Codec
 
@@ -34,6 +34,13 @@ theorem delHeader_same (p : Parser) (k : Bytes) :
   · simp
   · split <;> simp
 
+theorem delHeader_line (p : Parser) (k : Bytes) :
+    (delHeader p k).code = p.code ∧ (delHeader p k).reason = p.reason := by
+  unfold delHeader
+  split
+  · simp
+  · split <;> simp
+
 /-- the parser after `update_body` on a chunked message: same start line, new map, body := the stream -/
 def UpdChunked (p p' : Parser) (h' : Headers) (enc : Bytes) : Prop :=
   p'.ty = p.ty ∧ p'.method = p.method ∧ p'.version = p.version ∧ p'.path = p.path ∧
@@ -48,19 +55,16 @@ def stage1 (gz : Bytes → Bytes) (p : Parser) (body : Bytes) : Parser × Bytes 
   else (p, body)
 
 /-- second half: transfer-encoding / content-length, body, content-type -/
-def stage2 (bufSize : Nat) (pb : Parser × Bytes) (ct : Bytes) : Except Px.UpdateBody.Err Parser :=
+def stage2 (pb : Parser × Bytes) (ct : Bytes) : Except Px.UpdateBody.Err Parser :=
   let r : Except Px.UpdateBody.Err (Parser × Bytes) :=
-    if pb.1.isChunked then
-      match Px.Chunk.toChunks pb.2 bufSize with
-      | .ok x => .ok (delHeader pb.1 (b "content-length"), x)
-      | .error _ => .error .valueError
+    if pb.1.isChunked then .ok (delHeader pb.1 (b "content-length"), pb.2)
     else .ok (addHeader pb.1 (b "Content-Length") (natToDec pb.2.length), pb.2)
   match r with
   | .error e => .error e
   | .ok (p, body) => .ok (addHeader { p with body := some body } (b "Content-Type") ct)
 
 theorem updateBody_stages (gz : Bytes → Bytes) (bufSize : Nat) (p : Parser) (body ct : Bytes) :
-    updateBody gz bufSize p body ct = stage2 bufSize (stage1 gz p body) ct := rfl
+    updateBody gz bufSize p body ct = stage2 (stage1 gz p body) ct := rfl
 
 theorem stage1_spec (gz : Bytes → Bytes) (p : Parser) (body : Bytes) :
     (stage1 gz p body).2 = updBody gz (p.headers.getD []) body ∧
@@ -94,28 +98,43 @@ theorem stage1_spec (gz : Bytes → Bytes) (p : Parser) (body : Bytes) :
       have hz : isGzip h = false := by simp [isGzip, hdrGet_none_of_no_key h kCE hany']
       simp [hany', updBody, hz, hh, hdrDel_of_no_key h kCE hany']
 
-theorem updateBody_chunked (gz : Bytes → Bytes) (bufSize : Nat) (hbs : bufSize ≠ 0) (p : Parser) (body ct : Bytes)
+theorem stage1_line (gz : Bytes → Bytes) (p : Parser) (body : Bytes) :
+    (stage1 gz p body).1.code = p.code ∧ (stage1 gz p body).1.reason = p.reason := by
+  unfold stage1
+  split
+  · split
+    · split
+      · exact ⟨rfl, rfl⟩
+      · exact delHeader_line p _
+    · exact ⟨rfl, rfl⟩
+  · exact ⟨rfl, rfl⟩
+
+theorem updateBody_chunked (gz : Bytes → Bytes) (bufSize : Nat) (p : Parser) (body ct : Bytes)
     (hch : p.isChunked = true) :
-    ∃ (p' : Parser) (s : Px.Chunk.ChunkedStream), s.Valid ∧ s.decoded = updBody gz (p.headers.getD []) body ∧
-      Px.Chunk.toChunks (updBody gz (p.headers.getD []) body) bufSize = .ok s.render ∧
-      updateBody gz bufSize p body ct = .ok p' ∧
-      UpdChunked p p' (updHeadersCh (p.headers.getD []) ct) s.render := by
-  obtain ⟨s, hsv, hsd, hsr⟩ := toChunks_in_grammar (updBody gz (p.headers.getD []) body) bufSize hbs
+    ∃ p' : Parser, updateBody gz bufSize p body ct = .ok p' ∧
+      UpdChunked p p' (updHeadersCh (p.headers.getD []) ct) (updBody gz (p.headers.getD []) body) ∧
+      p'.code = p.code ∧ p'.reason = p.reason := by
   obtain ⟨e1, hh1, hc1, ht1, hm1, hv1, hp1⟩ := stage1_spec gz p body
+  obtain ⟨hcd, hrs⟩ := stage1_line gz p body
   rw [updateBody_stages]
   unfold stage2
   rw [bn_Content_Type, bn_content_length, e1, hc1, hch]
-  simp only [if_true, hsr]
+  simp only [if_true]
   have hd := delHeader_same (stage1 gz p body).1 kCL
-  refine ⟨_, s, hsv, hsd, rfl, rfl, ?_⟩
-  refine ⟨hd.2.1.trans ht1, hd.2.2.1.trans hm1, hd.2.2.2.1.trans hv1, hd.2.2.2.2.1.trans hp1, ?_, ?_, rfl⟩
-  · show (delHeader (stage1 gz p body).1 kCL).isChunked = true
-    exact hd.1.trans (hc1.trans hch)
-  · show (addHeader _ nCT ct).headers = _
-    simp only [addHeader, lower_nCT]
-    show some (hdrSet ((delHeader (stage1 gz p body).1 kCL).headers.getD []) kCT (nCT, ct)) = _
-    rw [delHeader_getD, hh1, lower_kCL]
-    rfl
+  have hd2 := delHeader_line (stage1 gz p body).1 kCL
+  refine ⟨_, rfl, ?_, ?_, ?_⟩
+  · refine ⟨hd.2.1.trans ht1, hd.2.2.1.trans hm1, hd.2.2.2.1.trans hv1, hd.2.2.2.2.1.trans hp1, ?_, ?_, rfl⟩
+    · show (delHeader (stage1 gz p body).1 kCL).isChunked = true
+      exact hd.1.trans (hc1.trans hch)
+    · show (addHeader _ nCT ct).headers = _
+      simp only [addHeader, lower_nCT]
+      show some (hdrSet ((delHeader (stage1 gz p body).1 kCL).headers.getD []) kCT (nCT, ct)) = _
+      rw [delHeader_getD, hh1, lower_kCL]
+      rfl
+  · show (delHeader (stage1 gz p body).1 kCL).code = p.code
+    exact hd2.1.trans hcd
+  · show (delHeader (stage1 gz p body).1 kCL).reason = p.reason
+    exact hd2.2.trans hrs
 
 theorem mem_hdrSet_of_mem {h : Headers} {k : Bytes} {x : Bytes × Bytes} {a : Bytes × (Bytes × Bytes)}
     (ha : a ∈ h) (hne : a.1 ≠ k) : a ∈ hdrSet h k x := by
@@ -136,34 +155,16 @@ theorem hdrInvB_updCh (h : Headers) (ct : Bytes) (hi : hdrInvB h = true) (hct : 
   rw [lower_nCT] at h3
   exact h3
 
-/-- **update_body, chunked request — what the code does (finding D23).**
-    FULL statement wanted by the property (false for the code as it is, see `C15_witness_D23`):
-    the rebuilt message decodes to the new body, `r.body = some (updBody gz h body)`.
-    What holds: the rebuilt message is complete and well-framed, but decodes to `enc`, the
-    *chunk encoding* of the new body (the stream is encoded twice on the wire). -/
-theorem update_body_req_chunked_partial (cfg : Cfg) (gz : Bytes → Bytes) (bufSize : Nat) (hbs : bufSize ≠ 0)
-    (p : Parser) (meth ver body ct : Bytes) (g : ReqGuard p meth ver) (hch : p.isChunked = true)
-    (hte : ∃ a ∈ p.headers.getD [], isTEChunked a.2 = true) (hct : wfValue ct = true) :
-    ∃ p' enc raw r, updateBody gz bufSize p body ct = .ok p' ∧
-      Px.Chunk.toChunks (updBody gz (p.headers.getD []) body) bufSize = .ok enc ∧
-      p'.body = some enc ∧
-      Px.Build.build bufSize Px.Gen.defaultDisableHeaders p' none none = .ok raw ∧
-      parse cfg (init .request) raw = .ok r ∧ r.state = .complete ∧ r.isChunked = true ∧
-      r.headers = some (updHeadersCh (p.headers.getD []) ct) ∧ r.body = some enc ∧ r.buffer = none := by
-  obtain ⟨hty, hm, hv, hmt, hvt, hpt, hpo, hi⟩ := g
-  obtain ⟨p', s, hsv, hsd, hsr, hupd, hp'⟩ := updateBody_chunked gz bufSize hbs p body ct hch
-  obtain ⟨q1, q2, q3, q4, q5, q6, q7⟩ := hp'
-  have hinv := hdrInvB_updCh (p.headers.getD []) ct hi hct
-  have hpath : pathOf p' = pathOf p := by unfold pathOf; rw [q4]
-  have g' : ReqGuard p' meth ver :=
-    ⟨q1.trans hty, q2.trans hm, q3.trans hv, hmt, hvt, hpath ▸ hpt, hpath ▸ hpo, by rw [q6]; exact hinv⟩
-  have hpairs : hdrPairs p' = namesOf (updHeadersCh (p.headers.getD []) ct) := by
-    unfold hdrPairs; rw [q6]; rfl
-  -- the Transfer-Encoding: chunked entry survives
+theorem updCh_facts (h : Headers) (ct : Bytes) (hi : hdrInvB h = true) (hct : wfValue ct = true)
+    (hte : ∃ a ∈ h, isTEChunked a.2 = true) :
+    hdrInvB (updHeadersCh h ct) = true ∧ updHeadersCh h ct ≠ [] ∧
+    (∃ e ∈ namesOf (updHeadersCh h ct), isTEChunked e = true) ∧
+    (∀ e ∈ namesOf (updHeadersCh h ct), isCL e = false) := by
+  have hinv := hdrInvB_updCh h ct hi hct
   obtain ⟨a, ha, hac⟩ := hte
   have hak : a.1 = kTE := by
     rw [((hdrInvB_spec hi).2 a ha).1]; exact isTEChunked_key hac
-  have hmemTE : a ∈ updHeadersCh (p.headers.getD []) ct := by
+  have hmemTE : a ∈ updHeadersCh h ct := by
     unfold updHeadersCh
     apply mem_hdrSet_of_mem _ (by rw [hak]; decide)
     unfold hdrDel
@@ -173,9 +174,9 @@ theorem update_body_req_chunked_partial (cfg : Cfg) (gz : Bytes → Bytes) (bufS
     · exact ha
     · show a ∈ List.filter _ _
       rw [List.mem_filter]; exact ⟨ha, by rw [hak]; decide⟩
-  -- no content-length entry is left
-  have hnoCL : ∀ e ∈ namesOf (updHeadersCh (p.headers.getD []) ct), isCL e = false := by
-    intro e he
+  refine ⟨hinv, fun e => by rw [e] at hmemTE; simp at hmemTE, ?_, ?_⟩
+  · exact ⟨a.2, by simp only [namesOf, List.mem_map]; exact ⟨a, hmemTE, rfl⟩, hac⟩
+  · intro e he
     simp only [namesOf, List.mem_map] at he
     obtain ⟨c, hc, rfl⟩ := he
     have hk := ((hdrInvB_spec hinv).2 c hc).1
@@ -186,12 +187,57 @@ theorem update_body_req_chunked_partial (cfg : Cfg) (gz : Bytes → Bytes) (bufS
     · show kCT ≠ kCL; decide
     · have := (List.mem_filter.1 hc).2
       simpa using this
-  obtain ⟨raw, r, h1, h2, h3⟩ := build_parse_req_chunked cfg bufSize hbs p' meth ver s.render g' q5 q7
-    ⟨a.2, by rw [hpairs]; simp only [namesOf, List.mem_map]; exact ⟨a, hmemTE, rfl⟩, hac⟩
-    (fun e he hc => absurd hc (by rw [hnoCL e (hpairs ▸ he)]; simp))
-  refine ⟨p', s.render, raw, r, hupd, hsr, q7, h1, h2, h3.state_eq, h3.chunked_eq, ?_, h3.body_eq, h3.buffer_eq⟩
-  rw [h3.headers_eq, hpairs]
-  exact hdrsOf_namesOf _ hinv (by
-    intro e; rw [e] at hmemTE; simp at hmemTE)
+
+/-- **update_body, chunked request**: `update_body` stores the new (possibly compressed) body decoded
+    and drops `content-length`; `build()` chunk-encodes it once; the rebuilt message is read back
+    complete and chunked, with the expected header map, and **decodes to the new body**. -/
+theorem update_body_req_chunked (cfg : Cfg) (gz : Bytes → Bytes) (bufSize : Nat) (hbs : bufSize ≠ 0)
+    (p : Parser) (meth ver body ct : Bytes) (g : ReqGuard p meth ver) (hch : p.isChunked = true)
+    (hte : ∃ a ∈ p.headers.getD [], isTEChunked a.2 = true) (hct : wfValue ct = true) :
+    ∃ p' raw r, updateBody gz bufSize p body ct = .ok p' ∧
+      p'.body = some (updBody gz (p.headers.getD []) body) ∧
+      Px.Build.build bufSize Px.Gen.defaultDisableHeaders p' none none = .ok raw ∧
+      parse cfg (init .request) raw = .ok r ∧ r.state = .complete ∧ r.isChunked = true ∧
+      r.method = some meth ∧ r.version = some ver ∧ r.path = some (pathOf p) ∧
+      r.headers = some (updHeadersCh (p.headers.getD []) ct) ∧
+      r.body = some (updBody gz (p.headers.getD []) body) ∧ r.buffer = none := by
+  obtain ⟨hty, hm, hv, hmt, hvt, hpt, hpo, hi⟩ := g
+  obtain ⟨p', hupd, ⟨q1, q2, q3, q4, q5, q6, q7⟩, -, -⟩ := updateBody_chunked gz bufSize p body ct hch
+  obtain ⟨hinv, hne, hTE, hnoCL⟩ := updCh_facts (p.headers.getD []) ct hi hct hte
+  have hpath : pathOf p' = pathOf p := by unfold pathOf; rw [q4]
+  have g' : ReqGuard p' meth ver :=
+    ⟨q1.trans hty, q2.trans hm, q3.trans hv, hmt, hvt, hpath ▸ hpt, hpath ▸ hpo, by rw [q6]; exact hinv⟩
+  have hpairs : hdrPairs p' = namesOf (updHeadersCh (p.headers.getD []) ct) := by
+    unfold hdrPairs; rw [q6]; rfl
+  obtain ⟨raw, r, h1, h2, h3⟩ := build_parse_req_chunked cfg bufSize hbs p' meth ver _ g' q5 q7
+    (hpairs ▸ hTE) (fun e he hc => absurd hc (by rw [hnoCL e (hpairs ▸ he)]; simp))
+  refine ⟨p', raw, r, hupd, q7, h1, h2, h3.state_eq, h3.chunked_eq, h3.method_eq, h3.version_eq, ?_, ?_,
+    h3.body_eq, h3.buffer_eq⟩
+  · rw [h3.path_eq, hpath]
+  · rw [h3.headers_eq, hpairs]; exact hdrsOf_namesOf _ hinv hne
+
+/-- **update_body, chunked response** -/
+theorem update_body_resp_chunked (cfg : Cfg) (gz : Bytes → Bytes) (bufSize : Nat) (hbs : bufSize ≠ 0)
+    (p : Parser) (ver code body ct : Bytes) (n : Int) (g : ResGuard p ver code n) (hch : p.isChunked = true)
+    (hte : ∃ a ∈ p.headers.getD [], isTEChunked a.2 = true) (hct : wfValue ct = true) :
+    ∃ p' raw r, updateBody gz bufSize p body ct = .ok p' ∧
+      p'.body = some (updBody gz (p.headers.getD []) body) ∧
+      buildResponseOf bufSize p' = .ok raw ∧
+      parse cfg (init .response) raw = .ok r ∧ r.state = .complete ∧ r.isChunked = true ∧
+      r.version = some ver ∧ r.code = some code ∧
+      r.headers = some (updHeadersCh (p.headers.getD []) ct) ∧
+      r.body = some (updBody gz (p.headers.getD []) body) ∧ r.buffer = none := by
+  obtain ⟨hty, hv, hc, hvt, hcne, hci, hcc, hr, hi⟩ := g
+  obtain ⟨p', hupd, ⟨q1, q2, q3, q4, q5, q6, q7⟩, qc, qr⟩ := updateBody_chunked gz bufSize p body ct hch
+  obtain ⟨hinv, hne, hTE, hnoCL⟩ := updCh_facts (p.headers.getD []) ct hi hct hte
+  have g' : ResGuard p' ver code n :=
+    ⟨q1.trans hty, q3.trans hv, qc.trans hc, hvt, hcne, hci, hcc, by rw [qr]; exact hr, by rw [q6]; exact hinv⟩
+  have hpairs : hdrPairs p' = namesOf (updHeadersCh (p.headers.getD []) ct) := by
+    unfold hdrPairs; rw [q6]; rfl
+  obtain ⟨raw, r, h1, h2, h3⟩ := build_parse_resp_chunked cfg bufSize hbs p' ver code _ n g' q5 q7
+    (hpairs ▸ hTE) (fun e he hc' => absurd hc' (by rw [hnoCL e (hpairs ▸ he)]; simp))
+  refine ⟨p', raw, r, hupd, q7, h1, h2, h3.state_eq, h3.chunked_eq, h3.version_eq, h3.code_eq, ?_,
+    h3.body_eq, h3.buffer_eq⟩
+  rw [h3.headers_eq, hpairs]; exact hdrsOf_namesOf _ hinv hne
 
 end Px.Codec
